@@ -15,7 +15,8 @@ CLAIMED = {
                 "every leaf assignment (hence every pattern of empty species), thl and exh under ALL and ANY (menus include transfers far dearer than a duplication: 4x4 leaves at hgt 8), "
                 "generate_all per input under five cost vectors (hgt=inf, zeros, incoherent); "
                 "oracle = brute force over all |S|^internal mappings. Operation histories: one input object per shape pair (3x4 / 4x4 leaves) whose "
-                "assignment and cost dicts are updated in place through every case. Complete within the slices, silent about larger inputs.",
+                "assignment and cost dicts are updated in place through every case; species-retopology histories: the species tree rebuilt three times from the node objects "
+                "of its predecessor (handed out in the opposite order) under a fresh LowestCommonAncestor, then every assignment solved on it (3x4 leaves). Complete within the slices, silent about larger inputs.",
         "design_ref": "6 (C01), 4, 5",
         "note": "Trusted: refmodel/dtl.py (cross-validated brute force <-> Bellman), ete3 container, CPython. Cost vectors "
                 "restricted to spe <= dup + 2*floss; outside it only the F-COHERENCE witnesses of known_findings.json are replayed.",
@@ -95,7 +96,8 @@ CLAIMED = {
     },
     "C08": {
         "category": "exploration",
-        "text": "Enumerator: all 258 plane Schroeder shapes up to 6 leaves (named, partly coloured) - binarize() = the model's refinements as a set, "
+        "text": "Enumerator: all 258 plane Schroeder shapes up to 6 leaves (named, partly coloured; also nameless ancestors, small-integer names, and - every multifurcating shape - leaf names "
+                "in <species>_<suffix> style whose concatenations collide, in all 6 rotations) - binarize() = the model's refinements as a set, "
                 "prod (2k-3)!! of them, each once, clades/names/colours/leaf names kept, argument untouched; ReconciliationInput.binarize() on all "
                 "<=3x<=3 shape pairs. End-to-end: every input with a polytomy in either tree, <=3x<=3 leaves (thorough: + 4-leaf objects with one "
                 "3-ary node), small synteny menus, ext_spfs and superdtl, ALL and ANY: optimum = minimum over all refinement pairs of the C02/C03 "
